@@ -98,6 +98,12 @@ def alternatives(name, lines, npkts, tier, for_pairs=False):
             dl.append({"kind": "file_dsb", "in_dsb": list(sub)})
     for cwd in ("repo", "root", "tmp"):
         dl.append({"kind": "dsb_only", "cwd": cwd})
+    if not for_pairs:
+        # long key logs: this capture's lines across the character offsets readers like to chunk at
+        for b in (4096, 8192, 65536, 131072, 196608, 262144):
+            dl.append({"kind": "big_file", "boundary": b})
+        dl.append({"kind": "big_dsb", "boundary": 65536})
+        dl.append({"kind": "big_dsb", "boundary": 131072})
     alts["delivery"] = dl
     return alts
 
@@ -194,6 +200,26 @@ def execute(pkts, lines, var, judge_cli=False):
         idx = [i for i in dl["in_dsb"] if i < len(ls)]
         items.insert(0, pcapio.dsb(to_text([ls[i] for i in idx], eol)))
         keyfile = to_text([l for i, l in enumerate(ls) if i not in idx], eol)
+    elif k in ("big_file", "big_dsb"):
+        # a long key log of other sessions' lines; this capture's lines lie across character offset `boundary` (the first of
+        # them starts 40 characters before it)
+        sep = "\r\n" if eol == "crlf" else "\n"
+        filler, n = [], 0
+        while True:
+            l = "CLIENT_RANDOM %064x %096x" % (0xF00D0000 + n, 0xABCD0000 + n)
+            if sum(len(x) + len(sep) for x in filler) + len(l) + len(sep) > dl["boundary"] - 40 - 2 - len(sep):
+                break
+            filler.append(l)
+            n += 1
+        used = sum(len(x) + len(sep) for x in filler)
+        filler.append("#" + "-" * (dl["boundary"] - 40 - used - 1 - len(sep)))       # comment line that makes the offset exact
+        tail = ["CLIENT_RANDOM %064x %096x" % (0xBEEF0000 + i, 0x12340000 + i) for i in range(dl["boundary"] // 900)]
+        text = sep.join(filler + ls + tail) + sep
+        assert text.index(ls[0]) == dl["boundary"] - 40, (text.index(ls[0]), dl["boundary"])
+        if k == "big_file":
+            keyfile = text
+        else:
+            items.insert(0, pcapio.dsb(text))
     elif k == "dsb_only":
         items.insert(0, pcapio.dsb(to_text(ls, eol)))
         cwd = {"repo": harness.SRC, "root": "/", "tmp": None}[dl["cwd"]]
@@ -300,7 +326,7 @@ def _short(var):
         elif k == "insert":
             out[k] = v[0]
         elif k == "delivery":
-            out[k] = v["kind"] + (":" + v["cwd"] if "cwd" in v else "") + (":empty" if v.get("payload") == "" else ":comment" if v.get("payload") else "")
+            out[k] = v["kind"] + (":" + v["cwd"] if "cwd" in v else "") + (":%d" % v["boundary"] if "boundary" in v else "") + (":empty" if v.get("payload") == "" else ":comment" if v.get("payload") else "")
         else:
             out[k] = v
     return out
